@@ -184,6 +184,24 @@ def acctReply (ids : List Str) (full : Proc) (req : List Str) : Proc :=
     out := joinLines (rows.take 2 ++
       (rows.drop 2).filter (fun r => !(ids.contains (rowId r) && !req.contains (rowId r)))) }
 
+/-! ### `submit`: the job identifier -/
+
+/-- `re.search('[0-9]+', output).group(0)`: the first maximal run of (ASCII) digits -/
+def firstDigits (s : Str) : Option Str :=
+  match s.dropWhile (fun c => !c.isDigit) with
+  | [] => none
+  | l => some (l.takeWhile Char.isDigit)
+
+/-- what `SlurmScriptAdapter.submit` / `LSFScriptAdapter.submit` make of the exit status and the
+output of `sbatch` / `bsub`: submission code and job identifier; `none.group(0)` is an
+`AttributeError` -/
+def submitResult (rc : Nat) (out : Str) : Except Unit (SubmissionCode × Option Str) :=
+  if rc == 0 then
+    match firstDigits out with
+    | some j => .ok (.OK, some j)
+    | none => .error ()
+  else .ok (.ERROR, none)
+
 /-! ### LSF -/
 
 def lsfAct (row : Str) : RowAct :=
